@@ -30,7 +30,7 @@ def expectedC12 : List (String × String) := [
   ("transform.conversions.FieldConvertView", "b1346e6539cc1ac2"),
   ("transform.conversions.convert", "7d0e99f18f920024"),
   ("transform.conversions.convertall", "73d2c6238641ab6b"),
-  ("transform.conversions.iterfieldconvert", "463dce8a1dd7af86"),
+  ("transform.conversions.iterfieldconvert", "ee107c581a77cc3a"),
   ("transform.conversions.replace", "8ead0995c13b926d"),
   ("transform.conversions.replaceall", "b047d03a0f5a5c8e"),
   ("transform.conversions.update", "0cdc895f11144a7e"),
@@ -46,7 +46,7 @@ def expectedC12 : List (String × String) := [
   ("transform.headers.RenameView", "48e9d7e3cdcb6aa5"),
   ("transform.headers.SetHeaderView", "b63afa9dd92826ac"),
   ("transform.headers.SkipView", "b1408e8f2752dce6"),
-  ("transform.headers.SortHeaderView", "808028889f18d6cf"),
+  ("transform.headers.SortHeaderView", "a1f00def180255a6"),
   ("transform.headers.SuffixHeaderView", "31fd4b0392367812"),
   ("transform.headers.iterextendheader", "527fe8a6e676013c"),
   ("transform.headers.iterpushheader", "a35d949fb95dfb0a"),
